@@ -7,6 +7,7 @@ INVARIANTS
   NoPanic
   Progress
   Disjoint
+  PPConserves
   GrammarOK
 PROPERTY
   CutProp
